@@ -69,7 +69,7 @@ func init() {
 			v := in.newVar("i", w)
 			in.nondets = append(in.nondets, NondetRec{Kind: kind, Names: []string{v.name}, W: w})
 			c := And(Bin("bvsle", lo, v), Bin("bvsle", v, hi))
-			if in.sol.CheckWith(c) != "sat" {
+			if in.feasible(c) != "sat" {
 				panic(stopPath{"empty nondet range"})
 			}
 			in.assume(c)
@@ -116,7 +116,7 @@ func init() {
 			}
 			return nil
 		}
-		r := in.sol.CheckWith(c)
+		r := in.feasible(c)
 		if r == "unsat" {
 			panic(stopPath{"assume infeasible"})
 		}
@@ -139,18 +139,22 @@ func init() {
 			return nil
 		}
 		in.lem.noteAssertQuery()
-		in.sol.Push()
-		in.sol.Assert(Not(c))
-		r := in.sol.Check()
-		if r == "sat" {
-			in.reportViolation(label, in.sol.Values(in.nondetNames()))
-		} else if r == "unknown" {
-			in.lem.noteUnknown()
-			in.lem.noteInconclusive("solver unknown at assertion " + label)
+		if in.model != nil && !in.evalModel(c) {
+			in.reportViolation(label, in.model)
+		} else {
+			in.sol.Push()
+			in.sol.Assert(Not(c))
+			r := in.sol.Check()
+			if r == "sat" {
+				in.reportViolation(label, in.sol.Values(in.nondetNames()))
+			} else if r == "unknown" {
+				in.lem.noteUnknown()
+				in.lem.noteInconclusive("solver unknown at assertion " + label)
+			}
+			in.sol.Pop()
 		}
-		in.sol.Pop()
 		// continue on the side where the assertion holds
-		if in.sol.CheckWith(c) != "sat" {
+		if in.feasible(c) != "sat" {
 			panic(stopPath{"assertion fails on the whole path"})
 		}
 		in.assume(c)
